@@ -146,10 +146,56 @@ func (x *Exec) aliasOf(st *State, sym string) string {
 }
 
 // assumeInitFacts states the contents of the initialised global maps in terms of the entry heap.
-func (x *Exec) assumeInitFacts(st *State) {
+func (x *Exec) assumeInitFacts(st *State, fn *ssa.Function, ct *Contract) {
+	used := map[string]bool{}
+	var scan func(f *ssa.Function, depth int)
+	seen := map[*ssa.Function]bool{}
+	scan = func(f *ssa.Function, depth int) {
+		if f == nil || seen[f] || depth > 3 {
+			return
+		}
+		seen[f] = true
+		for _, b := range f.Blocks {
+			for _, ins := range b.Instrs {
+				for _, op := range ins.Operands(nil) {
+					if op == nil || *op == nil {
+						continue
+					}
+					switch g := (*op).(type) {
+					case *ssa.Global:
+						used[globalKey(g)] = true
+					case *ssa.Function:
+						if x.prog.cs.Funcs[funcKey(g)] == nil {
+							scan(g, depth+1)
+						}
+					}
+				}
+			}
+		}
+		for _, af := range f.AnonFuncs {
+			scan(af, depth)
+		}
+	}
+	scan(fn, 0)
+	if ct != nil {
+		txt := ""
+		for _, cls := range [][]*Clause{ct.Requires, ct.Ensures, ct.Invs, ct.Asserts, ct.LineHooks} {
+			for _, cl := range cls {
+				txt += " " + cl.Src
+			}
+		}
+		for n := range x.prog.mapFacts {
+			short := n[strings.LastIndex(n, "/")+1:]
+			if strings.Contains(txt, short) {
+				used[n] = true
+			}
+		}
+	}
 	var names []string
 	for n := range x.prog.mapFacts {
-		names = append(names, n)
+		if used[n] {
+			names = append(names, n)
+		}
 	}
 	sort.Strings(names)
 	for _, n := range names {
